@@ -5,9 +5,15 @@
    and records, in processing order, the events "side s read its provider store"
    and "side s processed this GET_PROVIDERS answer" (the provider list as the
    responder sent it; the injected shuffle is applied here).  The model folds
-   the same events. *)
+   the same events.
+
+   A second harness (package fullrt) drives the real FullRT.FindProvidersAsync
+   the same way: every GET_PROVIDERS request of execOnMany parks in a gated
+   sender and the driver lets them return one at a time in a generated order,
+   mixed with 500 ms ticks and a cancellation; those cases are [frt_case]s and
+   are compared with Model/ProvSearchFrt.v. *)
 From Verif.Lib Require Import GoSem Bits.
-From Verif.Model Require Import ProvSearch.
+From Verif.Model Require Export ProvSearch ProvSearchFrt.
 From Verif.Proofs Require Import ProvSearchProofs.
 
 Inductive ev :=
@@ -16,7 +22,7 @@ Inductive ev :=
 
 Record side_in := { s_locals : list entry; s_store_err : bool }.
 
-Record case := {
+Record std_case := {
   c_dual : bool; c_count : Z; c_shuffle : nat; c_sides : list side_in;
   c_events : list ev;
   c_takes : option nat;        (* the consumer cancels after that many providers and stops receiving *)
@@ -72,7 +78,7 @@ Fixpoint run_evs (sh : list entry -> list entry) (count : Z) (sides : list side_
       (y ++ ys, ok && ok')
   end.
 
-Definition model_yields (c : case) : list entry * bool :=
+Definition model_yields (c : std_case) : list entry * bool :=
   let (arr, ok) := run_evs (shuffle (c_shuffle c)) (c_count c) (c_sides c)
                            (map (fun _ => SIdle) (c_sides c)) (c_events c) in
   let out := if c_dual c then dual_merge (c_count c) arr else arr in
@@ -92,7 +98,7 @@ Definition mem_peer (p : N) (l : list entry) : bool := existsb (fun e => N.eqb (
 (* ---- the property on the implementation's observations --------------------------- *)
 (* everything a started side may legitimately yield: its local providers (when
    the store read succeeded) and the entries of the processed answers *)
-Definition reported (c : case) : list entry :=
+Definition reported (c : std_case) : list entry :=
   flat_map (fun e => match e with
                      | ELocal s => match nth_error (c_sides c) s with
                                    | Some si => if s_store_err si then [] else s_locals si
@@ -109,7 +115,7 @@ Definition pattern_ok (dual : bool) (p : N) (ys : list entry) : bool :=
   | _ => false
   end.
 
-Definition prop_ok (c : case) : bool :=
+Definition prop_ok (c : std_case) : bool :=
   let ys := c_yields c in
   (* sound *)
   forallb (fun y => mem_entry y (reported c)) ys &&
@@ -127,11 +133,78 @@ Definition prop_ok (c : case) : bool :=
 
 (* 0 = model and implementation agree and the property holds on the trace;
    1 = they differ only outside the property; 2 = the property fails on the trace *)
-Definition verdict (c : case) : nat :=
+Definition verdict_std (c : std_case) : nat :=
   if prop_ok c then
     let (ys, ok) := model_yields c in
     if ok && list_eqb entry_eqb ys (c_yields c) then 0 else 1
   else 2.
+
+(* ---- accelerated client (FullRT) ---------------------------------------------------------- *)
+Record frt_case := {
+  f_count : Z; f_shuffle : nat;
+  f_quarter : nat;             (* WithSuccessWaitFraction(f_quarter / 4) *)
+  f_no_store : bool;           (* providers disabled / undefined key / the provider manager returns an error *)
+  f_precancel : bool;          (* the context is cancelled before the provider store is read *)
+  f_locals : list entry;       (* what the provider store returns, in that order *)
+  f_npeers : nat;              (* how many peers GetClosestPeers has to return: min(bucket size, table size) *)
+  f_arrivals : list arrival;   (* the driver's steps once the requests are parked *)
+  f_takes : option nat;
+  (* observed *)
+  f_reqs : nat;                (* GET_PROVIDERS requests issued *)
+  f_flags : list bool;         (* per step: an answer was delivered to the search on a live context (processed) *)
+  f_yields : list entry; f_closed : bool; f_late_req : bool; f_bad : bool;
+  f_slow : bool }.              (* the consumer stalled while answers were in progress: outside the model's granularity, property only *)
+
+Definition frt_model (c : frt_case) : list entry * list bool :=
+  frt_core (shuffle (f_shuffle c)) (f_no_store c) (f_precancel c) (f_count c) (f_locals c)
+           (f_npeers c) (f_quarter c) (f_arrivals c) (f_takes c).
+
+(* does the search get as far as asking peers *)
+Definition frt_asks (c : frt_case) : bool :=
+  negb (f_no_store c || f_precancel c || takes_reached (f_takes c) 0) &&
+  let '(_, y0, early) := fr_feed (f_count c) [] (f_locals c) in
+  negb (early || match f_takes c with Some t => Nat.ltb t (length y0) | None => false end).
+
+(* the property on the implementation's own observations *)
+Definition frt_reported (c : frt_case) : list entry :=
+  (if f_no_store c || f_precancel c || takes_reached (f_takes c) 0 then [] else f_locals c) ++
+  concat (delivered (f_arrivals c) (f_flags c)).
+
+(* what must come out with count 0: the local providers and the answers processed on a live context *)
+Definition frt_due (c : frt_case) : list entry :=
+  (if f_no_store c || f_precancel c || takes_reached (f_takes c) 0 then [] else f_locals c) ++
+  concat (processed (f_arrivals c) (f_flags c)).
+
+Definition frt_prop_ok (c : frt_case) : bool :=
+  let ys := f_yields c in
+  (* sound *)
+  forallb (fun y => mem_entry y (frt_reported c)) ys &&
+  (* count bound *)
+  (if Z.ltb 0 (f_count c) then Z.leb (Z.of_nat (length ys)) (f_count c)
+   else if Z.ltb (f_count c) 0 then match ys with [] => true | _ => false end else true) &&
+  (* no peer is ever repeated *)
+  forallb (fun y => Nat.leb (length (occ (fst y) ys)) 1) ys &&
+  (* count = 0 and the consumer did not walk away: every local provider and every
+     provider named in a processed answer is yielded *)
+  (if Z.eqb (f_count c) 0 && match f_takes c with None => true | Some n => Nat.ltb (length ys) n end
+   then forallb (fun e => mem_peer (fst e) ys) (frt_due c)
+   else true) &&
+  (* nothing is asked once count providers were received, the channel is closed, no panic, not wedged *)
+  negb (f_late_req c) && f_closed c && negb (f_bad c).
+
+Definition verdict_frt (c : frt_case) : nat :=
+  if frt_prop_ok c then
+    if f_slow c then 0 else
+    let (ys, fl) := frt_model c in
+    if list_eqb entry_eqb ys (f_yields c) && list_eqb Bool.eqb fl (f_flags c) &&
+       Nat.eqb (f_reqs c) (if frt_asks c then f_npeers c else 0)
+    then 0 else 1
+  else 2.
+
+Inductive case := CStd (c : std_case) | CFrt (c : frt_case).
+
+Definition verdict (c : case) : nat :=
+  match c with CStd c => verdict_std c | CFrt c => verdict_frt c end.
 
 Fixpoint verdicts_from (i : nat) (cs : list case) : list (nat * nat) :=
   match cs with
